@@ -9,24 +9,46 @@ COQ_IMPORTS = ['C06_Model']
 GENERATORS = ['gen_codes', 'gen_flags']
 ALPHA = 'ACGTRYSWKMBDHVN.-'
 STRANDS = '+-.?'
-RULE = ('corpus (F6-F9 witnesses, empty-window witness) first; exhaustive box: every single-location feature [x,y) on both strands of a '
+RULE = ('corpus (F6-F9 witnesses, empty-window witnesses) first; exhaustive box: every single-location feature [x,y) on both strands of a '
         'sequence of length <= 3 (quick) / <= 5 (thorough) x every int window and every slice window with bounds in -n-1..n+1 or None, '
         'every Location window on both strands, rc, all with update_fts; sampled two-location features x all windows of a length-4/6 sequence; '
         'a multi-location extraction stream (2-4 separated / touching / overlapping locations, all strands, filler x splitter, by Feature / own feature / '
-        'type name with a later duplicate type); then seeded random cases: sequences of 0-60 residues (occasionally 300), '
+        'type name with a later duplicate type); a gap stream (sequences with gap columns at the ends, in runs and isolated; gap strings - . -. "" N; '
+        'int / slice / Location / Feature / own-feature / type-name windows in residue numbering, both strands, with and without update_fts); '
+        'a history stream on ONE object (state independence): window - length-preserving in-place edit (rc, reverse, complement, item assignment, data '
+        'assignment with the gaps moved, feature replacement) - same window again; the same window twice and with other gap / update_fts values in both '
+        'orders; editing the RESULT of a window (rc with features, popping / rewriting its features, its data, its id) and repeating; windows through a '
+        'Feature sharing the Location objects of an own feature followed by rc(update_fts); a fresh object colliding on id and length; in-place windows; '
+        'every step is compared with the model applied to the current value and the receiver is observed after every step; '
+        'then seeded random cases: sequences of 0-60 residues (occasionally 300), '
         '0-3 features with 1-3 locations (strands + - . ?, random Defect bits, overlapping, touching the ends, edges shared with the window), windows int / '
-        'slice (None, negative, beyond the ends, step None/1) / Location / Feature / own feature / type name (case-insensitive, missing), '
-        'options update_fts, splitter, filler; 6% deliberately malformed (out-of-domain) inputs. '
+        'slice (None, negative, beyond the ends, step None/1) / Location / Feature / own feature / type name (case-insensitive, missing) / unsupported object, '
+        'options update_fts, splitter, filler; Feature(...) built from Location objects, from start/stop/strand keywords or from tuples; '
+        '8% deliberately malformed (out-of-domain) inputs. '
         'non-trivial = distinct case whose window cuts, drops, mirrors or joins something (marker = kind/update_fts/window strand/'
-        'cut-left/cut-right/dropped/multi-location/filler/splitter)')
+        'cut-left/cut-right/dropped/multi-location/filler/splitter/gap), or a history of at least two steps (marker = the step kinds)')
 TRUSTED = ['CPython str slicing, str.upper/lower, slice.indices, sorted() stability (modelled: py_slice, upper/lower on ASCII, slice_bounds, '
            'stable insertion sort; compared on every case)',
-           'modelled rather than verified: BioSeq._getitem, _slice_locs, rc(update_fts) (seq.py:347-355,407-483); FeatureList.get/slice/rc, '
-           'Feature.rc, LocationTuple.__new__/range/_reverse, Location.__init__/_reverse, Defect._reverse, Strand._reverse (fts.py)',
-           'residue complement: C05 model over the regenerated COMPLEMENT tables; Defect/Strand values regenerated (G_flags)']
-ASSUMPTIONS = ['Python str restricted to ASCII; sequences over the 17-symbol IUPAC nucleotide alphabet (case-insensitive) inside the domain',
-               'feature locations and window locations lie inside [0, len]; Defect values < 256; gap=None, inplace=False; slice step in (None, 1)',
-               'update_fts with a multi-location window is rejected by design (ValueError) and outside the domain']
+           'modelled rather than verified: BioSeq._getitem (all options: update_fts, gap, splitter, filler; inplace in histories), _slice_locs, '
+           'rc(update_fts), __setitem__ (seq.py); FeatureList.get/slice/rc, Feature.__init__/rc, LocationTuple.__new__/range/_reverse, '
+           'Location.__init__/_reverse, Defect._reverse, Strand._reverse (fts.py) -- see MODELLED_FUNCS',
+           'residue complement: C05 model over the regenerated COMPLEMENT tables; Defect/Strand values regenerated (G_flags)',
+           'object identity / aliasing is not modelled (the model is pure): state independence is decided by the history stream only']
+ASSUMPTIONS = ['Python str restricted to ASCII; sequences over the 17-symbol IUPAC nucleotide alphabet (case-insensitive) inside the domain '
+               '(RNA: theorem C06_rc_tracking_rna only; RNA cases are generated but outside wf_C06)',
+               'feature locations and window locations lie inside [0, len] (inside [0, number of residues] when gap is given); Defect values < 256; '
+               'slice step in (None, 1)',
+               'update_fts with a multi-location window is rejected by design (ValueError, theorem C06_multi_update_error) and outside the domain',
+               'gap x update_fts is under-specified in sugar (int/slice windows cut features at column bounds - pinned by sugar\'s own '
+               'test_seqs_getitem_special -, Location-like windows at residue numbers); both paths are modelled and compared, no theorem speaks about them']
+
+MODELLED_FUNCS = {
+    'sugar/core/seq.py': ['BioSeq._getitem', 'BioSeq._slice_locs', 'BioSeq.rc', 'BioSeq.__getitem__', 'BioSeq.sl', 'BioSeq.__setitem__',
+                          '_Sliceable_GetItem.__init__', '_Sliceable_GetItem.__getitem__'],
+    'sugar/core/fts.py': ['FeatureList.slice', 'FeatureList.rc', 'FeatureList.get', 'Feature.rc', 'Feature.__init__',
+                          'LocationTuple.__new__', 'LocationTuple.range', 'LocationTuple._reverse',
+                          'Location.__init__', 'Location._reverse', 'Defect._reverse', 'Strand._reverse'],
+}
 
 COMP = {'A': 'T', 'C': 'G', 'G': 'C', 'T': 'A', 'R': 'Y', 'Y': 'R', 'S': 'S', 'W': 'W', 'K': 'M', 'M': 'K', 'B': 'V', 'V': 'B',
         'D': 'H', 'H': 'D', 'N': 'N', '.': '.', '-': '-'}
@@ -136,9 +158,23 @@ def _random_case(rng, big=False):
             case['splitter'] = rng.choice(['|', '--', 'n', '', 'x*'])
         if rng.random() < 0.6:
             case['filler'] = rng.choice(['N', 'n', '-', 'nn', ''])
+    r = rng.random()
+    if r < 0.12:
+        case['ctor'] = 'kw'
+    elif r < 0.24:
+        case['ctor'] = 'tuples'
+    if rng.random() < 0.01:
+        case['win'] = {'k': 'bad'}
     # deliberately malformed inputs (outside the domain; the model must still agree on raise / no raise)
-    if rng.random() < 0.06:
-        m = rng.randrange(6)
+    if rng.random() < 0.08:
+        m = rng.randrange(9)
+        if m == 6 and fts:
+            fts[0][1] = []                                        # Feature(locs=[])
+        elif m == 7 and fts:
+            case['ctor'] = rng.choice(['none', 'both'])
+        elif m == 8 and fts:
+            case['ctor'] = 'tuples'
+            fts[-1][1][0][1] = fts[-1][1][0][0] - 1               # bad tuple -> TypeError
         if m == 0 and fts:
             fts[0][1][0][1] = n + rng.randint(1, 3)               # location beyond the end
         elif m == 1 and fts:
@@ -152,6 +188,138 @@ def _random_case(rng, big=False):
         elif m == 5 and fts:
             fts[0][1][0][0] = -1
     return case
+
+
+def _gapped(rng, n, gapch='-'):
+    """a sequence with gap columns at the ends, in runs and isolated; never symmetric on purpose"""
+    out = []
+    while len(out) < n:
+        r = rng.random()
+        if r < 0.25:
+            out += [rng.choice(gapch)] * rng.choice([1, 1, 2, 3])
+        else:
+            out.append(rng.choice('ACGT' if rng.random() < 0.9 else 'RYKMN'))
+    return ''.join(out[:n])
+
+
+def _gap_window(rng, m, fts, u):
+    """a window in residue numbering 0..m"""
+    r = rng.random()
+    if r < 0.12:
+        return {'k': 'int', 'i': rng.randint(-m - 1, m)}
+    if r < 0.37:
+        return {'k': 'slice', 'a': _bound(rng, m, []), 'b': _bound(rng, m, []), 'step': None}
+    if r < 0.62 or not fts:
+        return {'k': 'loc', 'l': _loc(rng, m, rng.choice('+-+-.?'), [], 0)}
+    if r < 0.75:
+        sd = rng.choice('+-')
+        return {'k': 'feat', 'ls': [_loc(rng, m, sd, [], 0) for _ in range(1 if u else rng.choice([1, 2, 3]))]}
+    if r < 0.88:
+        return {'k': rng.choice(['own', 'ownlocs']), 'idx': rng.randrange(len(fts))}
+    return {'k': 'type', 'name': rng.choice([t for t, _ in fts if t] or ['cds']).upper()}
+
+
+def _gap_case(rng):
+    """one window with the gap option on a sequence that (mostly) contains gap columns"""
+    n = rng.choice([3, 5, 8, 12, 20])
+    gap = rng.choice(['-', '-', '-', '.', '-.', '.-', '', 'N'])
+    data = _gapped(rng, n, gap if gap not in ('', 'N') else '-')
+    if gap == 'N':
+        data = data.replace('-', 'N')
+    m = len([c for c in data if c not in gap])
+    fts = _fts(rng, m, [], maxft=2) if m else []
+    u = rng.random() < 0.35
+    if u:
+        fts = [[t, ls[:1]] if rng.random() < 0.7 else [t, ls] for t, ls in fts]
+    win = _gap_window(rng, max(m, 1), fts, u)
+    case = {'data': data, 'fts': fts, 'u': u, 'win': win, 'gap': gap, 'splitter': None, 'filler': None}
+    if win['k'] not in ('int', 'slice') and rng.random() < 0.3:
+        case['splitter'] = rng.choice([None, '|'])
+        case['filler'] = rng.choice([None, 'N', '-'])
+    return case
+
+
+def _history(rng):
+    """several steps on ONE sequence object (state-independence stream): windows interleaved with in-place edits, the same
+    window repeated, options varied in both orders, results edited afterwards, fresh objects colliding on id / length"""
+    gapped = rng.random() < 0.55
+    n = rng.choice([4, 6, 8, 10, 14])
+    gap = rng.choice(['-', '-', '.', '-.']) if gapped else None
+    data = _gapped(rng, n, gap) if gapped else _seq(rng, n, rng.choice(['dna', 'dna', 'iupac']))
+    m = len([c for c in data if gap is None or c not in gap])
+    fts = _fts(rng, max(m, 1), [], maxft=2) if m else []
+    fts = [[t, ls[:1]] if rng.random() < 0.6 else [t, ls] for t, ls in fts]
+
+    def win(u=None, g='same', inplace=False, mut=None):
+        u = (rng.random() < 0.4) if u is None else u
+        gg = gap if g == 'same' else g
+        w = _gap_window(rng, max(m, 1), fts, u)
+        st = {'op': 'win', 'win': w, 'u': u, 'splitter': None, 'filler': None, 'gap': gg}
+        if w['k'] not in ('int', 'slice') and rng.random() < 0.25:
+            st['splitter'] = rng.choice([None, '|'])
+            st['filler'] = rng.choice([None, 'N'])
+        if inplace:
+            st['inplace'] = True
+        if mut:
+            st['mut'] = mut
+        return st
+
+    def edit():
+        r = rng.random()
+        if r < 0.3:
+            return {'op': 'win', 'win': {'k': 'rc'}, 'u': (not gapped) and rng.random() < 0.5, 'splitter': None, 'filler': None, 'gap': None}
+        if r < 0.5:
+            return {'op': 'reverse'}
+        if r < 0.6:
+            return {'op': 'complement'}
+        if r < 0.8:
+            return {'op': 'setitem', 'i': rng.randint(-n, n - 1), 'c': rng.choice('ACGT' + (gap or '-'))}
+        if r < 0.9:
+            d2 = list(data)
+            rng.shuffle(d2)
+            return {'op': 'setdata', 'data': ''.join(d2)}       # same length, same residues, gaps elsewhere
+        return {'op': 'setfts', 'fts': [[t, ls[:1]] for t, ls in _fts(rng, max(m, 1), [], maxft=2)]}
+
+    pat = rng.randrange(7)
+    steps = []
+    if pat == 0:                                                  # (c) window, length-preserving edit, same window again
+        w = win()
+        steps = [w, edit(), dict(w)] + ([edit(), dict(w)] if rng.random() < 0.4 else [])
+    elif pat == 1:                                                # (a)/(b) same window twice, then other options, both orders
+        w = win(u=False)
+        w2 = dict(w, gap=(None if w['gap'] is not None else rng.choice(['-', '.'])))
+        w3 = dict(w, u=True)
+        steps = [w, dict(w), w2, w, w3, w2] if rng.random() < 0.5 else [w2, w3, w, w2, dict(w)]
+    elif pat == 2:                                                # (d) edit the RESULT, repeat, then address the receiver's own features
+        w = win(u=rng.random() < 0.7, mut=rng.choice(['rc', 'pop', 'flip', 'data']))
+        w2 = dict(w)
+        w2.pop('mut')
+        steps = [w, w2]
+        if fts:
+            steps.append({'op': 'win', 'win': {'k': rng.choice(['own', 'ownlocs']), 'idx': rng.randrange(len(fts))}, 'u': False,
+                          'splitter': None, 'filler': None, 'gap': gap})
+    elif pat == 3:                                                # (e) windows through shared Location objects, then rc with features
+        i = rng.randrange(len(fts)) if fts else 0
+        o = {'op': 'win', 'win': {'k': 'ownlocs' if fts else 'rc', 'idx': i}, 'u': bool(fts) and len(fts[i][1]) == 1, 'splitter': None,
+             'filler': None, 'gap': None, 'mut': rng.choice(['rc', 'flip'])}
+        rcu = {'op': 'win', 'win': {'k': 'rc'}, 'u': True, 'splitter': None, 'filler': None, 'gap': None}
+        steps = [o, rcu, dict(o, mut=None), win(g=None)]
+        if rng.random() < 0.6:                                    # two features of the object share their Location objects
+            steps = [{'op': 'share', 'idx': i}, rcu, dict(o, mut=None), dict(rcu), win(u=True, g=None)] + steps[:rng.randint(0, 2)]
+    elif pat == 4:                                                # (f) a fresh object colliding on id and length
+        w = win()
+        d2 = list(data)
+        rng.shuffle(d2)
+        steps = [w, {'op': 'new', 'data': ''.join(d2), 'fts': fts if rng.random() < 0.5 else [[t, ls[:1]] for t, ls in _fts(rng, max(m, 1), [], maxft=2)]}, dict(w)]
+    elif pat == 5:                                                # in-place windows
+        w = win(u=False, inplace=True)
+        after = {'op': 'win', 'win': {'k': 'slice', 'a': rng.choice([None, 0, 1]), 'b': rng.choice([None, -1, 2]), 'step': None},
+                 'u': rng.random() < 0.3, 'splitter': None, 'filler': None, 'gap': rng.choice([gap, None])}
+        steps = [win(u=False), w, after, {'op': 'win', 'win': {'k': 'rc'}, 'u': False, 'splitter': None, 'filler': None, 'gap': None}, dict(after)]
+    else:                                                         # random mixture
+        for _ in range(rng.randint(2, 6)):
+            steps.append(win() if rng.random() < 0.6 else edit())
+    return {'data': data, 'fts': fts, 'steps': steps}
 
 
 def _box_cases(nmax):
@@ -219,6 +387,10 @@ def gen_cases(rng, tier):
         cases.append({'data': data, 'fts': fts, 'u': False, 'win': win,
                       'splitter': rng.choice([None, None, '|', '--', 'x', '']),
                       'filler': rng.choice([None, 'N', 'n', 'nn', '-', ''])})
+    for _ in range(8000 if tier == 'thorough' else 500):
+        cases.append(_gap_case(rng))
+    for _ in range(5000 if tier == 'thorough' else 350):
+        cases.append(_history(rng))
     nrand = 40000 if tier == 'thorough' else 1600
     for _ in range(nrand):
         cases.append(_random_case(rng, big=(tier == 'thorough')))
@@ -231,10 +403,26 @@ def _canon_fts(fts):
     return [[ft.type, [[l.start, l.stop, str(l.strand), int(l.defect)] for l in ft.locs]] for ft in fts]
 
 
+CTOR_MODE = {None: 0, 'locs': 0, 'kw': 0, 'tuples': 1, 'none': 2, 'both': 2}
+
+
 def _build(case):
+    """BioSeq with features; case['ctor'] selects the argument form of Feature(...) (LocationTuple.__new__, fts.py:163-178)"""
     from sugar import BioSeq
     from sugar.core.fts import Feature, FeatureList, Location
-    fts = [Feature(t, locs=[Location(a, b, s, d) for a, b, s, d in ls]) for t, ls in case['fts']]
+    ctor = case.get('ctor')
+    fts = []
+    for n, (t, ls) in enumerate(case['fts']):
+        if ctor == 'kw' and len(ls) == 1 and ls[0][3] == 0:
+            fts.append(Feature(t, start=ls[0][0], stop=ls[0][1], strand=ls[0][2]))
+        elif ctor == 'tuples':
+            fts.append(Feature(t, locs=[tuple(l) for l in ls]))
+        elif ctor == 'none' and n == 0:
+            fts.append(Feature(t))
+        elif ctor == 'both' and n == 0:
+            fts.append(Feature(t, locs=[Location(*l) for l in ls], start=0, stop=1))
+        else:
+            fts.append(Feature(t, locs=[Location(a, b, s, d) for a, b, s, d in ls]))
     seq = BioSeq(case['data'])
     seq.fts = FeatureList(fts)
     return seq
@@ -252,34 +440,124 @@ def _window(case, seq):
         return Location(*w['l'])
     if k == 'feat':
         return Feature('w', locs=[Location(*l) for l in w['ls']])
-    if k == 'own':
+    if k in ('own', 'ownlocs'):
         if not seq.fts:
             raise ValueError('no feature')
-        return seq.fts[w['idx'] % len(seq.fts)]
+        ft = seq.fts[w['idx'] % len(seq.fts)]
+        return ft if k == 'own' else Feature('w', locs=ft.locs)      # ownlocs: a new Feature sharing the Location objects
     if k == 'type':
         return w['name']
+    if k == 'bad':
+        return 1.5
     raise ValueError(k)
 
 
-def impl(case):
-    seq = _build(case)
-    before = [str(seq), _canon_fts(seq.fts)]
-    if case['win']['k'] == 'rc':
-        res = seq.rc(update_fts=True) if case['u'] else seq.rc()
-        assert res is seq, 'rc must return the receiver'
-        return [str(res), _canon_fts(res.fts)]
-    win = _window(case, seq)
+def _kw(case):
     kw = {}
     if case['u']:
         kw['update_fts'] = True
-    if case['splitter'] is not None:
-        kw['splitter'] = case['splitter']
-    if case['filler'] is not None:
-        kw['filler'] = case['filler']
+    for o in ('splitter', 'filler', 'gap'):
+        if case.get(o) is not None:
+            kw[o] = case[o]
+    if case.get('inplace'):
+        kw['inplace'] = True
+    return kw
+
+
+def _state(seq):
+    return [str(seq), _canon_fts(seq.fts)]
+
+
+def _impl_single(case):
+    seq = _build(case)
+    before = _state(seq)
+    if case['win']['k'] == 'rc':
+        res = seq.rc(update_fts=True) if case['u'] else seq.rc()
+        assert res is seq, 'rc must return the receiver'
+        return _state(res)
+    win = _window(case, seq)
+    kw = _kw(case)
     res = seq.sl(**kw)[win] if kw else seq[win]
-    out = [str(res), _canon_fts(res.fts)]
-    assert [str(seq), _canon_fts(seq.fts)] == before, 'receiver was modified'
+    out = _state(res)
+    assert _state(seq) == before, 'receiver was modified'
     return out
+
+
+def _mutate_result(res, how, shared_fts):
+    """(d) of the independence stream: edit the RESULT of a not-in-place window; the receiver must not notice.
+    Without update_fts an int/slice result shares its FeatureList with the parent by design: only its data is edited then."""
+    from sugar.core.fts import Location
+    if how == 'data' or shared_fts:
+        res.data = 'N' * len(res.data)
+        res.reverse()
+        return
+    if how == 'rc':
+        res.rc(update_fts=True)
+    elif how == 'pop':
+        while len(res.fts):
+            res.fts.pop()
+    elif how == 'flip':
+        for ft in res.fts:
+            ft.locs = [Location(0, 1, '-', 255)]
+            ft.meta.type = 'edited'
+    res.meta.id = 'edited'
+
+
+def _impl_history(case):
+    from sugar import BioSeq
+    from sugar.core.fts import Feature, FeatureList, Location
+    from framework import canon_exc
+    seq = _build(case)
+    out = []
+    for st in case['steps']:
+        op = st['op']
+        try:
+            if op == 'win':
+                if st['win']['k'] == 'rc':
+                    r = seq.rc(update_fts=True) if st['u'] else seq.rc()
+                    assert r is seq
+                    val = None
+                else:
+                    win = _window(st, seq)
+                    kw = _kw(st)
+                    res = seq.sl(**kw)[win] if kw else seq[win]
+                    val = _state(res)
+                    if st.get('mut'):
+                        shared = (not st['u']) and st['win']['k'] in ('int', 'slice')
+                        _mutate_result(res, st['mut'], shared)
+            elif op == 'reverse':
+                assert seq.reverse() is seq
+                val = None
+            elif op == 'complement':
+                assert seq.complement() is seq
+                val = None
+            elif op == 'setitem':
+                seq[st['i']] = st['c']
+                val = None
+            elif op == 'setdata':
+                seq.data = st['data']
+                val = None
+            elif op == 'setfts':
+                seq.fts = FeatureList([Feature(t, locs=[Location(*l) for l in ls]) for t, ls in st['fts']])
+                val = None
+            elif op == 'new':
+                seq = _build(st)
+                val = None
+            elif op == 'share':
+                if not seq.fts:
+                    raise ValueError('no feature')
+                seq.fts = FeatureList(list(seq.fts) + [Feature('shared', locs=seq.fts[st['idx'] % len(seq.fts)].locs)])
+                val = None
+            else:
+                raise ValueError(op)
+        except Exception as e:                      # the history goes on; the model leaves the object unchanged too
+            val = canon_exc(e)
+        out.append([val, _state(seq)])
+    return out
+
+
+def impl(case):
+    return _impl_history(case) if 'steps' in case else _impl_single(case)
 
 
 # ----------------------------------------------------------------------------- model term
@@ -302,7 +580,7 @@ def _optbs(x):
     return 'None' if x is None else '(Some %s)' % coq_bs(x)
 
 
-def _win_term(case):
+def _win_term(case, fts):
     w = case['win']
     k = w['k']
     if k == 'int':
@@ -313,19 +591,48 @@ def _win_term(case):
         return '(RLoc %s%%Z)' % _rawloc(w['l'])
     if k == 'feat':
         return '(RFeat [%s]%%Z)' % '; '.join(_rawloc(l) for l in w['ls'])
-    if k == 'own':
-        fts = case['fts']
-        ls = fts[w['idx'] % len(fts)][1] if fts else []
-        return '(RFeat [%s]%%Z)' % '; '.join(_rawloc(l) for l in ls)
+    if k in ('own', 'ownlocs'):
+        return '(ROwn %s%%Z)' % _z(w['idx'])
     if k == 'type':
         return '(RType %s)' % coq_bs(w['name'])
+    if k == 'bad':
+        return 'RBad'
     return 'RRc'
 
 
+def _fts_term(fts):
+    return '[%s]%%Z' % '; '.join('(%s, [%s])' % (_optbs(t), '; '.join(_rawloc(l) for l in ls)) for t, ls in fts)
+
+
+def _step_term(st, fts):
+    op = st['op']
+    if op == 'win':
+        return '(HWin %s %s %s %s %s %s)' % (_win_term(st, fts), coq_bool(st['u']), _optbs(st.get('splitter')),
+                                             _optbs(st.get('filler')), _optbs(st.get('gap')), coq_bool(bool(st.get('inplace'))))
+    if op == 'reverse':
+        return 'HReverse'
+    if op == 'complement':
+        return 'HComplement'
+    if op == 'setitem':
+        return '(HSetItem %s%%Z %s)' % (_z(st['i']), coq_bs(st['c']))
+    if op == 'setdata':
+        return '(HSetData %s)' % coq_bs(st['data'])
+    if op == 'setfts':
+        return '(HSetFts %s)' % _fts_term(st['fts'])
+    if op == 'new':
+        return '(HNew %s %s)' % (coq_bs(st['data']), _fts_term(st['fts']))
+    if op == 'share':
+        return '(HShare %d%%nat)' % st['idx']
+    raise ValueError(op)
+
+
 def model_term(case):
-    fts = '[%s]%%Z' % '; '.join('(%s, [%s])' % (_optbs(t), '; '.join(_rawloc(l) for l in ls)) for t, ls in case['fts'])
-    return 'out (run_C06 %s %s %s %s %s %s)' % (coq_bs(case['data']), fts, _win_term(case), coq_bool(case['u']),
-                                                _optbs(case['splitter']), _optbs(case['filler']))
+    if 'steps' in case:
+        return 'out (run_C06h %s %s [%s])' % (coq_bs(case['data']), _fts_term(case['fts']),
+                                              '; '.join(_step_term(st, None) for st in case['steps']))
+    return 'out (run_C06 %d %s %s %s %s %s %s %s)' % (CTOR_MODE[case.get('ctor')], coq_bs(case['data']), _fts_term(case['fts']), _win_term(case, case['fts']),
+                                                   coq_bool(case['u']), _optbs(case['splitter']), _optbs(case['filler']),
+                                                   _optbs(case.get('gap')))
 
 
 def split_model(case, m):
@@ -350,86 +657,115 @@ def _swapbits(d):
     return out
 
 
-def _cells(case, data, fts):
-    """The result as a list of cells: ('r', original position, flipped) or ('x', literal text).
-    Returns (cells, flipped_window) or an exception class name."""
-    n = len(data)
-    w = case['win']
+def _window_locs(st, fts):
+    """the ordered locations of a Location / Feature / own-feature / type-name window, or an exception class name"""
+    w = st['win']
     k = w['k']
+    if k == 'loc':
+        return [w['l']]
+    if k == 'feat':
+        return _order53(w['ls'])
+    if k in ('own', 'ownlocs'):
+        return fts[w['idx'] % len(fts)][1] if fts else 'ValueError'
+    for t, ls in fts:
+        if t is not None and t.lower() == w['name'].lower():
+            return ls
+    return 'ValueError'
+
+
+def _cells(st, data, fts):
+    """The result as a list of cells: ('r', original column, flipped) or ('x', literal text).
+    With gap=g window bounds count residues (columns not in g); a window [a, b) is the columns from residue a up to
+    (excluding) residue b.  Returns (cells, flipped_window, lo, hi) or an exception class name; lo/hi are the window
+    bounds in the coordinates features are expressed in (columns, or residues when gap is given)."""
+    n = len(data)
+    gap = st.get('gap')
+    cols = list(range(n)) if gap is None else [i for i, c in enumerate(data) if c not in gap]
+    m = len(cols)
+
+    def col(r):
+        return cols[r] if r < m else n
+    w = st['win']
+    k = w['k']
+    if k == 'bad':
+        return 'TypeError'
     if k == 'rc':
-        return [('r', p, True) for p in reversed(range(n))], True
+        return [('r', p, True) for p in reversed(range(n))], True, 0, n
     if k == 'int':
         i = w['i']
-        if not -n <= i < n:
+        if not -m <= i < m:
             return 'IndexError'
-        return [('r', i % n, False)], False
+        return [('r', cols[i % m], False)], False, i % m, i % m + 1
     if k == 'slice':
-        return [('r', p, False) for p in range(n)[w['a']:w['b']]], False
-    if k == 'loc':
-        locs = [w['l']]
-    elif k == 'feat':
-        locs = _order53(w['ls'])
-    elif k == 'own':
-        locs = fts[w['idx'] % len(fts)][1] if fts else None
-        if locs is None:
-            return 'ValueError'
-    else:
-        locs = None
-        for t, ls in fts:
-            if t is not None and t.lower() == w['name'].lower():
-                locs = ls
-                break
-        if locs is None:
-            return 'ValueError'
+        ra, rb, _ = slice(w['a'], w['b']).indices(m)
+        # an open bound is the end of the sequence (leading / trailing gap columns included), a given bound is a residue
+        ca = 0 if w['a'] is None else col(ra)
+        cb = n if w['b'] is None else col(rb)
+        return [('r', p, False) for p in range(ca, cb)], False, ra, max(ra, rb)
+    locs = _window_locs(st, fts)
+    if isinstance(locs, str):
+        return locs
     cells, prev = [], None
     for l in locs:
-        a, b, s, _ = l
+        a, b, sd, _ = l
         if prev is not None:
-            if case['filler'] is not None:
-                skipped = (prev[0] - b) if s == '-' else (a - prev[1])
+            if st.get('filler') is not None:
+                skipped = (prev[0] - b) if sd == '-' else (a - prev[1])
                 if skipped > 0:
-                    cells.append(('x', case['filler'] * skipped))
-            if case['splitter'] is not None:
-                cells.append(('x', case['splitter']))
-        rng_ = range(a, b)
-        cells += [('r', p, True) for p in reversed(rng_)] if s == '-' else [('r', p, False) for p in rng_]
+                    cells.append(('x', st['filler'] * skipped))
+            if st.get('splitter') is not None:
+                cells.append(('x', st['splitter']))
+        ra, rb, _ = slice(a, b).indices(m)
+        rng_ = range(col(ra), col(rb))
+        cells += [('r', p, True) for p in reversed(rng_)] if sd == '-' else [('r', p, False) for p in rng_]
         prev = l
-    return cells, (locs[0][2] == '-')
+    return cells, (locs[0][2] == '-'), locs[0][0], locs[0][1]
 
 
-def spec(case, got):
-    """Is `got` what the property demands?  Position tracking: every residue of the result is labelled with the position
-    it came from; a tracked location must cover exactly the labels of the original location that are in the window."""
-    data = case['data'].upper()
-    fts = [[t, _order53(ls)] for t, ls in case['fts']]
-    r = _cells(case, data, fts)
+def spec_step(state, st, got):
+    """Is `got` what the property demands for window step `st` on an object in `state` = [data, features]?
+    Position tracking: every residue of the result is labelled with the address it came from; a tracked location must
+    cover exactly the labels of the original location that are in the window."""
+    data, fts = state
+    r = _cells(st, data, fts)
     if isinstance(r, str):
         return None if got == {'e': r} else 'expected %s, got %r' % (r, got)
     if isinstance(got, dict):
         return 'raised %s' % got['e']
-    cells, flipped = r
+    cells, flipped, lo, hi = r
     exp = ''.join((COMP[data[c[1]]] if c[2] else data[c[1]]) if c[0] == 'r' else c[1].upper() for c in cells)
     if got[0] != exp:
         return 'data: expected %r got %r' % (exp, got[0])
-    if not case['u']:
+    if not st['u']:
         return None if got[1] == fts else 'features changed without update_fts: %r' % (got[1],)
-    pos = [c[1] for c in cells]            # update_fts: one contiguous window, no literals
-    lo, hi = (min(pos), max(pos) + 1) if pos else (0, 0)
+    gap = st.get('gap')
+    if gap is None or st['win']['k'] in ('int', 'slice'):
+        # update_fts: one contiguous window, no literals; addresses are columns (with gap= too on the int / slice path:
+        # sugar's own test_seqs_getitem_special pins that reading; gap x update_fts is under-specified, see LEVEL_NOTE)
+        track = [c[1] for c in cells]
+        lo, hi = (min(track), max(track) + 1) if track else (0, 0)
+    else:                                    # Location-like windows with gap: addresses are residue numbers, gap columns carry none
+        resno, k = {}, 0
+        for i, ch in enumerate(data):
+            if ch not in gap:
+                resno[i] = k
+                k += 1
+        track = [resno[c[1]] for c in cells if c[1] in resno]
     expf = []
     for t, ls in fts:
         new = []
-        for a, b, s, d in ls:
-            J = [j for j, p in enumerate(pos) if a <= p < b]
+        for a, b, sd, d in ls:
+            J = [j for j, p in enumerate(track) if a <= p < b]
             if not J:
                 continue
             if J != list(range(J[0], J[-1] + 1)):
                 return 'oracle: location not contiguous in the window'
             cutl, cutr = a < lo, b > hi
             if flipped:
-                s2 = {'+': '-', '-': '+'}.get(s, s)
+                s2 = {'+': '-', '-': '+'}.get(sd, sd)
                 d2 = _swapbits(d) | (1 if cutr else 0) | (2 if cutl else 0)
             else:
-                s2, d2 = s, d | (1 if cutl else 0) | (2 if cutr else 0)
+                s2, d2 = sd, d | (1 if cutl else 0) | (2 if cutr else 0)
             new.append([J[0], J[-1] + 1, s2, d2])
         if new:
             expf.append([t, new])
@@ -445,6 +781,63 @@ def spec(case, got):
     return None
 
 
+def _canon_raw(fts):
+    return [[t, _order53(ls)] for t, ls in fts]
+
+
+def _spec_history(case, got):
+    """every step judged on the state the object was OBSERVED in before it (so one failure does not cascade)"""
+    state = [case['data'].upper(), _canon_raw(case['fts'])]
+    if not isinstance(got, list) or len(got) != len(case['steps']):
+        return 'history: %r' % (got,)
+    for n, (st, (val, after)) in enumerate(zip(case['steps'], got)):
+        op = st['op']
+        data, fts = state
+        why = None
+        exp_state = state
+        if op == 'win' and st['win']['k'] == 'rc':
+            why = spec_step(state, st, after)
+            exp_state = None
+        elif op == 'win':
+            why = spec_step(state, st, val)
+            if st.get('inplace') and not isinstance(val, dict):
+                exp_state = [val[0], fts]
+        elif op == 'reverse':
+            exp_state = [data[::-1], fts]
+        elif op == 'complement':
+            exp_state = [''.join(COMP.get(c, c) for c in data), fts]
+        elif op == 'setitem':
+            i, m = st['i'], len(data)
+            if -m <= i < m:
+                i %= m
+                exp_state = [data[:i] + st['c'] + data[i + 1:], fts]
+            elif val != {'e': 'IndexError'}:
+                why = 'expected IndexError, got %r' % (val,)
+        elif op == 'setdata':
+            exp_state = [st['data'], fts]
+        elif op == 'setfts':
+            exp_state = [data, _canon_raw(st['fts'])]
+        elif op == 'new':
+            exp_state = [st['data'].upper(), _canon_raw(st['fts'])]
+        elif op == 'share':
+            if fts:
+                exp_state = [data, fts + [['shared', fts[st['idx'] % len(fts)][1]]]]
+            elif val != {'e': 'ValueError'}:
+                why = 'expected ValueError, got %r' % (val,)
+        if why is None and exp_state is not None and after != exp_state:
+            why = 'object after the step: expected %r, observed %r' % (exp_state, after)
+        if why:
+            return 'step %d (%s): %s' % (n, op, why)
+        state = after
+    return None
+
+
+def spec(case, got):
+    if 'steps' in case:
+        return _spec_history(case, got)
+    return spec_step([case['data'].upper(), _canon_raw(case['fts'])], case, got)
+
+
 # ----------------------------------------------------------------------------- bookkeeping
 
 def _wstrand(case):
@@ -453,14 +846,20 @@ def _wstrand(case):
         return w['l'][2]
     if w['k'] == 'feat' and w['ls']:
         return w['ls'][0][2]
-    if w['k'] == 'own' and case['fts']:
-        return case['fts'][w['idx'] % len(case['fts'])][1][0][2]
+    if w['k'] in ('own', 'ownlocs') and case.get('fts'):
+        ls = case['fts'][w['idx'] % len(case['fts'])][1]
+        return ls[0][2] if ls else '+'
     if w['k'] == 'rc':
         return '-'
     return '+'
 
 
 def nontrivial(case, got):
+    if 'steps' in case:
+        ops = [(st['op'] if st['op'] != 'win' else st['win']['k'] + ('g' if st.get('gap') is not None else '')
+                + ('u' if st['u'] else '') + ('i' if st.get('inplace') else '') + ('m' if st.get('mut') else ''))
+               for st in case['steps']]
+        return 'hist|' + ','.join(ops) if len(ops) > 1 else None
     if isinstance(got, dict):
         return 'raises:' + got['e'] if case['win']['k'] in ('int', 'type') else None
     k = case['win']['k']
@@ -470,46 +869,46 @@ def nontrivial(case, got):
     for _, ls in got[1]:
         for l in ls:
             flags |= l[3] & 3
-    multi = k in ('feat', 'own', 'type') and (len(case['win'].get('ls', [])) > 1 or k != 'feat')
-    if not case['fts'] and k in ('int', 'slice') and not case['u']:
+    multi = k in ('feat', 'own', 'ownlocs', 'type') and (len(case['win'].get('ls', [])) > 1 or k != 'feat')
+    gap = case.get('gap')
+    if not case['fts'] and k in ('int', 'slice') and not case['u'] and (gap is None or not any(c in gap for c in case['data'])):
         return None
-    return '%s|u=%d|ws=%s|miss=%d|dropped=%d|multi=%d|fill=%d|split=%d' % (
+    return '%s|u=%d|ws=%s|miss=%d|dropped=%d|multi=%d|fill=%d|split=%d|gap=%d' % (
         k, case['u'], _wstrand(case), flags, int(case['u'] and nout < nloc), multi,
-        case['filler'] is not None, case['splitter'] is not None)
+        case['filler'] is not None, case['splitter'] is not None,
+        0 if gap is None else 2 if any(c in gap for c in case['data'].upper()) else 1)
 
 
 def histkey(case, got):
     n = len(case['data'])
-    return ['win=' + case['win']['k'], 'update_fts=%s' % case['u'],
-            'len=' + ('0' if n == 0 else '1-6' if n <= 6 else '7-60' if n <= 60 else '61+'),
+    ln = 'len=' + ('0' if n == 0 else '1-6' if n <= 6 else '7-60' if n <= 60 else '61+')
+    if 'steps' in case:
+        return ['history', 'steps=%d' % len(case['steps']), ln] + sorted(set('step=' + st['op'] for st in case['steps']))
+    return ['win=' + case['win']['k'], 'update_fts=%s' % case['u'], ln,
             'nfts=%d' % len(case['fts']), 'wstrand=' + _wstrand(case),
             'result=' + (got['e'] if isinstance(got, dict) else 'ok'),
-            'opts=%s%s' % ('F' if case['filler'] is not None else '-', 'S' if case['splitter'] is not None else '-')]
+            'opts=%s%s%s' % ('F' if case['filler'] is not None else '-', 'S' if case['splitter'] is not None else '-',
+                             'G' if case.get('gap') is not None else '-')]
 
 
 def features(case, got):
+    if 'steps' in case:
+        return {'history': True}
     w = case['win']
-    return {'window': w['k'], 'update_fts': case['u'], 'raised': got['e'] if isinstance(got, dict) else None}
+    return {'window': w['k'], 'update_fts': case['u'], 'gap': case.get('gap') is not None,
+            'raised': got['e'] if isinstance(got, dict) else None}
 
 
 def python_snippet(case):
-    return ('import json\nfrom sugar import BioSeq\nfrom sugar.core.fts import Feature, FeatureList, Location\n'
+    return ('import json, sys\nsys.path.insert(0, "/verif/tools")\nfrom props import c06\n'
             'case = json.loads(%r)\n'
-            'seq = BioSeq(case["data"])\n'
-            'seq.fts = FeatureList([Feature(t, locs=[Location(*l) for l in ls]) for t, ls in case["fts"]])\n'
-            'w = case["win"]; k = w["k"]\n'
-            'kw = {n: case[n] for n in ("splitter", "filler") if case[n] is not None}\n'
-            'if case["u"]: kw["update_fts"] = True\n'
-            'if k == "rc": res = seq.rc(update_fts=case["u"])\n'
-            'else:\n'
-            '    win = (w["i"] if k == "int" else slice(w["a"], w["b"], w["step"]) if k == "slice" else Location(*w["l"]) if k == "loc"\n'
-            '           else Feature("w", locs=[Location(*l) for l in w["ls"]]) if k == "feat" else seq.fts[w["idx"] %% len(seq.fts)] if k == "own" else w["name"])\n'
-            '    res = seq.sl(**kw)[win]\n'
-            'print(str(res), [(f.type, [(l.start, l.stop, str(l.strand), int(l.defect)) for l in f.locs]) for f in res.fts])\n'
-            % json.dumps(case))
+            '# c06.impl builds BioSeq(case["data"]) with the features of the case and applies the window '
+            '(seq.sl(**options)[window]) or, for a history, every step in turn on the same object;\n'
+            '# it prints [data, features] of the result (per step: [returned value, object afterwards])\n'
+            'print(json.dumps(c06.impl(case)))\n' % json.dumps(case))
 
 
-NO_SHRINK_KEYS = ('k',)
+NO_SHRINK_KEYS = ('k', 'op', 'ctor')
 
 
 def _valid_loc(l):
@@ -517,33 +916,65 @@ def _valid_loc(l):
             and isinstance(l[2], str) and isinstance(l[3], int) and 0 <= l[3] < 256)
 
 
+def _valid_fts(fts):
+    return isinstance(fts, list) and all(
+        isinstance(ft, list) and len(ft) == 2 and (ft[0] is None or isinstance(ft[0], str))
+        and isinstance(ft[1], list) and all(_valid_loc(l) for l in ft[1]) for ft in fts)
+
+
+def _valid_winstep(c):
+    if not isinstance(c['u'], bool):
+        return False
+    for o in ('splitter', 'filler', 'gap'):
+        if not (c.get(o) is None or isinstance(c[o], str)):
+            return False
+    w = c['win']
+    k = w['k']
+    if k == 'int':
+        return isinstance(w['i'], int)
+    if k == 'slice':
+        return all(w[x] is None or isinstance(w[x], int) for x in ('a', 'b', 'step'))
+    if k == 'loc':
+        return _valid_loc(w['l'])
+    if k == 'feat':
+        return isinstance(w['ls'], list) and all(_valid_loc(l) for l in w['ls'])
+    if k in ('own', 'ownlocs'):
+        return isinstance(w['idx'], int) and 0 <= w['idx'] < 1000
+    if k == 'type':
+        return isinstance(w['name'], str)
+    return k in ('rc', 'bad')
+
+
 def valid_case(c):
     """structural validity of a (shrunk) case; semantic validity is decided by wf_C06 in the model"""
     try:
-        if not isinstance(c['data'], str) or not isinstance(c['u'], bool):
+        if not isinstance(c['data'], str) or not _valid_fts(c['fts']) or c.get('ctor') not in CTOR_MODE:
             return False
-        for ft in c['fts']:
-            if not (isinstance(ft, list) and len(ft) == 2 and (ft[0] is None or isinstance(ft[0], str))
-                    and isinstance(ft[1], list) and all(_valid_loc(l) for l in ft[1])):
+        if 'steps' not in c:
+            return _valid_winstep(c)
+        for st in c['steps']:
+            op = st['op']
+            if op == 'win':
+                if not _valid_winstep(st):
+                    return False
+            elif op == 'setitem':
+                if not (isinstance(st['i'], int) and isinstance(st['c'], str)):
+                    return False
+            elif op == 'setdata':
+                if not isinstance(st['data'], str):
+                    return False
+            elif op == 'setfts':
+                if not _valid_fts(st['fts']):
+                    return False
+            elif op == 'new':
+                if not (isinstance(st['data'], str) and _valid_fts(st['fts'])):
+                    return False
+            elif op == 'share':
+                if not (isinstance(st['idx'], int) and 0 <= st['idx'] < 1000):
+                    return False
+            elif op not in ('reverse', 'complement'):
                 return False
-        for o in ('splitter', 'filler'):
-            if not (c[o] is None or isinstance(c[o], str)):
-                return False
-        w = c['win']
-        k = w['k']
-        if k == 'int':
-            return isinstance(w['i'], int)
-        if k == 'slice':
-            return all(w[x] is None or isinstance(w[x], int) for x in ('a', 'b', 'step'))
-        if k == 'loc':
-            return _valid_loc(w['l'])
-        if k == 'feat':
-            return isinstance(w['ls'], list) and all(_valid_loc(l) for l in w['ls'])
-        if k == 'own':
-            return isinstance(w['idx'], int) and w['idx'] >= 0
-        if k == 'type':
-            return isinstance(w['name'], str)
-        return k == 'rc'
+        return True
     except (KeyError, TypeError, IndexError):
         return False
 
@@ -593,14 +1024,24 @@ def extra_checks(rng, tier, cov):
                              'sequence length <= %d' % (5 if tier == 'thorough' else 3))
 
 
-LEVEL_TEXT = ('Machine-checked Coq theorems about an executable model of BioSeq._getitem/_slice_locs/rc(update_fts) and '
+LEVEL_TEXT = ('Machine-checked Coq theorems (34, no axioms) about an executable model of BioSeq._getitem/_slice_locs/rc(update_fts) and '
               'FeatureList.slice/rc: extraction by Location/Feature/type name is the 5\'->3\' concatenation of the (reverse-complemented) pieces '
-              'with filler/splitter; under update_fts every surviving location addresses the same residues inside the window, survivors are '
-              'exactly the overlapping locations, MISS flags are set exactly when cut, rc mirrors coordinates and flips strands; without update_fts '
-              'the features are unchanged. The model is tied to sugar by differential testing on every run (exhaustive small box + random).')
+              'with filler/splitter (filler pads ascending plus-strand locations to the range length); under update_fts every surviving location '
+              'addresses the same residues inside the window (int, every slice window, Location / single-location Feature windows on both strands), '
+              'survivors are exactly the overlapping locations, MISS flags are set exactly when cut, the 5\'->3\' order is kept, rc mirrors '
+              'coordinates and flips strands (DNA exactly, RNA up to U/T as in C05, unstranded features coordinate-wise); without update_fts the '
+              'features are unchanged for every option; gap-aware windows are, with the gap columns removed, the plain windows of the ungapped '
+              'sequence (both strands) and the option is neutral on gap-free sequences; error clauses (IndexError, multi-location update_fts). '
+              'The model is tied to sugar by differential testing on every run (exhaustive small box, random, gap stream, state-independence histories).')
 LEVEL_NOTE = ('Trusted: Coq kernel/vm_compute, translator (G_codes, G_flags), the correspondence harness, CPython str/slice/sorted. '
-              'Modelled rather than verified: the listed methods of seq.py/fts.py; gap=None, inplace=False, step in (None,1); ASCII strings; '
-              'nucleotide alphabet for the rc clauses. Domain excludes update_fts with multi-location windows (ValueError by design); empty slice windows are inside the domain since the fix of the '
-              'former empty_window defect (fixed in /repo f654eb3; witnesses kept in the corpus). '
+              'Modelled rather than verified: the functions in MODELLED_FUNCS (every statement of them is executed in the quick tier except '
+              'fts.py:738,740 - FeatureList.slice defaults for start/stop None - and fts.py:640 - FeatureList.get with a list of names -, which no '
+              'BioSeq window can reach). Proved vs tested: everything in LEVEL_TEXT is proved for gap=None unless gap is named; TESTED ONLY: '
+              'gap combined with update_fts (under-specified in sugar: column bounds on the int/slice path, residue numbers on the Location path), '
+              'gap on int windows and open/negative slice bounds, inplace=True, state independence (caches, aliasing of results and receivers: history '
+              'stream; the model is pure), the Feature(...) argument forms beyond Location lists (C06_run_op_modes shows they build the same model '
+              'value), Strand/Defect validation, minus-strand variant of the filler length clause. ASCII strings; nucleotide alphabet for the rc clauses. '
+              'Domain excludes update_fts with multi-location windows (ValueError by design, proved); empty slice windows are inside the domain since '
+              'the fix of the former empty_window defect (/repo f654eb3; witnesses kept in the corpus). '
               'All theorems closed under the global context (no axioms).')
 TECHNIQUE = 'Coq proof over a hand-written Gallina model + differential correspondence + first-principles position-tracking oracle'
